@@ -407,6 +407,10 @@ def make_opaque(beh, name, target, log):
         def wrapper(*args, **kwargs):
             return inner(*args, **kwargs)
         return wrapper
+    if kind == "intro":
+        # one of the functions of register_introspection_functions(), on a twin dispatcher with the same names registered
+        import servercases_names as sn
+        return sn.intro_twin(spec)
     raise ValueError("unknown opaque kind %r" % (kind,))
 
 
@@ -572,6 +576,10 @@ class Real(object):
             f = make_callable(c, name, "func", self.log)
             self.funcs[name] = f
             self.disp.register_function(f, name)
+        if desc.get("introspection"):
+            # the real thing: system.listMethods / system.methodHelp / system.methodSignature of THIS dispatcher (the descriptor
+            # lists them as opaque callables of kind `intro`, observed on a twin: harness/servercases_names.py)
+            self.disp.register_introspection_functions()
         inst = desc.get("inst")
         if inst is not None:
             obj = _Instance()
@@ -2200,6 +2208,12 @@ def std_cases(ctx, em):
     if em.get("baseexc"):
         import servercases_base as sb
         sb.extend_cases(ctx, em, rng, cases)
+    # p) the input classes of harness/servercases_names.py: reserved-looking and odd METHOD NAMES registered as functions, reachable
+    #    on the instance, unregistered, next to real introspection (names/…, em["names"]); LONG BODIES of 1 KiB … 1 MiB with
+    #    multi-byte characters at every alignment around powers of two, long ids / method names / params (longbody/…, em["longbody"])
+    if em.get("names") or em.get("longbody"):
+        import servercases_names as sn
+        sn.extend_cases(ctx, em, rng, cases)
     return cases
 
 
